@@ -63,7 +63,10 @@ func EncodeCMPPContentAndSplit(ctx context.Context, content string, msgFmt datac
 ) {
 	actualMsgFmt = msgFmt
 	var encodedData []byte
-	encoder := datacoding.GetCMPPCodec(msgFmt, content)
+	if !datacoding.IsValidCMPPDataCoding(msgFmt) {
+		actualMsgFmt = datacoding.CMPP_CODING_UCS2 // unsupported coding: GetCMPPCodec falls back to ucs2
+	}
+	encoder := datacoding.GetCMPPCodec(actualMsgFmt, content)
 	encodedData, err = encoder.Encode()
 	if err != nil && encoder.Name() != datacoding.DataCodingUcs2 {
 		// use ucs2 as fallback
@@ -125,6 +128,9 @@ func EncodeSMPPContentAndSplit(ctx context.Context, content string, msgFmt datac
 		actualMsgFmt = datacoding.SMPP_CODING_UCS2
 	}
 
+	if !datacoding.IsValidSMPPDataCoding(actualMsgFmt) {
+		actualMsgFmt = datacoding.SMPP_CODING_UCS2 // unsupported coding: GetSMPPCodec falls back to ucs2
+	}
 	var encodedData []byte
 	encoder := datacoding.GetSMPPCodec(actualMsgFmt, content)
 	encodedData, err = encoder.Encode()
